@@ -524,7 +524,7 @@ package vegeta
 
 // The worker: one result per tick, Done exactly once.
 //@ func (*Attacker).attack
-//@   property C02 C03 C05
+//@   property C02 C03 C04 C05
 //@   requires [non-nil] a != nil && atk != nil && workers != nil && ticks != nil && results != nil && tr != nil
 //@   requires [hit-preconditions] atk.began <= clock(0) && atk.began >= 0 && !held(&atk.seqmu) && a.stopch != nil && (closed(a.stopch) <==> done(&a.stopOnce))
 //@   ghost taken int
